@@ -90,9 +90,28 @@ def check_header():
     return probs
 
 
+def check_lower_axiom():
+    """A-LOWER, the library axiom the jar contracts use for str.lower(): idempotent, keeps a leading '.' (and creates none), maps
+    only '' to ''.  Checked per code point (str.lower is per character except for the final-sigma rule, which involves neither)."""
+    import sys
+    bad = []
+    for i in range(sys.maxunicode + 1):
+        ch = chr(i)
+        lo = ch.lower()
+        if lo.lower() != lo or lo == "" or (lo.startswith(".") != (ch == ".")):
+            bad.append(hex(i))
+            if len(bad) > 3:
+                break
+    for s_ in (".Example.COM", "\u03a3\u0391\u03a3", ".\u0130x", "A.B"):
+        lo = s_.lower()
+        if lo.lower() != lo or lo.startswith(".") != s_.startswith("."):
+            bad.append(repr(s_))
+    return [f"str.lower() violates A-LOWER for {bad}"] if bad else []
+
+
 def search(max_len, limit=None):
     n = 0
-    p = check_header()
+    p = check_lower_axiom() or check_header()
     if p:
         return dict(found=True, witness=dict(history=[["header-assembly", p[0], None]], kind="header"), tried=1)
     steps = [(k, v, d) for k in NAMES for v in VALUES for d in DOMAINS]
